@@ -212,7 +212,7 @@ pub fn gen_system(t: &mut Tape, cfg: &SysCfg) -> SysCase {
             continue;
         }
         // with mc_bias the simplest (all-zero tape) choice is the counter-like update
-        let next_choice = if cfg.mc_bias { [3usize, 1, 2, 0, 4][t.weighted(&[8, 4, 1, 1, 2])] } else { t.weighted(&[1, 6, 1, 4, 1]) };
+        let next_choice = if cfg.mc_bias { [3usize, 1, 2, 0, 4, 5][t.weighted(&[8, 4, 1, 1, 2, 4])] } else { t.weighted(&[1, 6, 1, 4, 1]) };
         let next = match next_choice {
             0 => None,
             1 => {
@@ -220,6 +220,24 @@ pub fn gen_system(t: &mut Tape, cfg: &SysCfg) -> SysCase {
                 Some(g.of_type(&mut ctx, t, tpe, steps))
             }
             2 => Some(*sym), // constant state
+            // chained counter: advances only while an earlier state holds a particular value, so the
+            // reachable set is a relation between states (long diameters, relational invariants)
+            5 if k > 0 && tpe.is_bit_vector() && states[..k].iter().any(|(s, _)| s.get_type(&ctx).is_bit_vector()) => {
+                let w = tpe.get_bit_vector_width().unwrap();
+                let prev: Vec<ExprRef> =
+                    states[..k].iter().map(|(s, _)| *s).filter(|s| s.get_type(&ctx).is_bit_vector()).collect();
+                let p = prev[t.below(prev.len() as u32) as usize];
+                let pw = p.get_bv_type(&ctx).unwrap();
+                let pv = ctx.bv_lit(&Bv::new(pw, t.bits(pw)).to_baa());
+                let cond = if t.flag() { ctx.equal(p, pv) } else { ctx.greater_or_equal(p, pv) };
+                let one = ctx.bv_lit(&Bv::from_u64(w, 1).to_baa());
+                let inc = ctx.add(*sym, one);
+                Some(ctx.ite(cond, inc, *sym))
+            }
+            5 => {
+                let steps = 1 + t.below(cfg.expr_steps);
+                Some(g.of_type(&mut ctx, t, tpe, steps))
+            }
             // re-loaded with its init expression every cycle (the identical reference)
             4 if init.is_some() => *init,
             4 => Some(*sym),
@@ -283,7 +301,7 @@ pub fn gen_system(t: &mut Tape, cfg: &SysCfg) -> SysCase {
     // ---- bad states
     let n_bad = if cfg.mc_bias { 1 + t.weighted(&[6, 2, 1]).min(cfg.max_bads.max(1) as usize - 1) as u32 } else { 1 + t.below(cfg.max_bads.max(1)) };
     for _ in 0..n_bad {
-        let b = match t.weighted(if cfg.mc_bias { &[9, 3, 1] } else { &[4, 5, 1] }) {
+        let b = match t.weighted(if cfg.mc_bias { &[9, 3, 1, 4] } else { &[4, 5, 1, 0] }) {
             0 if states.iter().any(|(s, _)| s.get_type(&ctx).is_bit_vector()) => {
                 let bvs: Vec<ExprRef> =
                     states.iter().map(|(s, _)| *s).filter(|s| s.get_type(&ctx).is_bit_vector()).collect();
@@ -306,6 +324,32 @@ pub fn gen_system(t: &mut Tape, cfg: &SysCfg) -> SysCase {
                 ctx.equal(s, vl)
             }
             2 => bool_lit(&mut ctx, t),
+            // relation between two states, or a conjunction of two state values
+            3 if states.iter().filter(|(s, _)| s.get_type(&ctx).is_bit_vector()).count() >= 2 => {
+                let bvs: Vec<ExprRef> =
+                    states.iter().map(|(s, _)| *s).filter(|s| s.get_type(&ctx).is_bit_vector()).collect();
+                let i = t.below(bvs.len() as u32) as usize;
+                let j = (i + 1 + t.below(bvs.len() as u32 - 1) as usize) % bvs.len();
+                let (a, b) = (bvs[i], bvs[j]);
+                let (wa, wb) = (a.get_bv_type(&ctx).unwrap(), b.get_bv_type(&ctx).unwrap());
+                if wa == wb && t.flag() {
+                    match t.below(3) {
+                        0 => ctx.equal(a, b),
+                        1 => ctx.greater(a, b),
+                        _ => {
+                            let x = ctx.xor(a, b);
+                            let m = ctx.bv_lit(&Bv::ones(wa).to_baa());
+                            ctx.equal(x, m)
+                        }
+                    }
+                } else {
+                    let va = ctx.bv_lit(&Bv::new(wa, t.bits(wa)).to_baa());
+                    let vb = ctx.bv_lit(&Bv::new(wb, t.bits(wb)).to_baa());
+                    let ea = ctx.equal(a, va);
+                    let eb = ctx.equal(b, vb);
+                    ctx.and(ea, eb)
+                }
+            }
             _ => {
                 let steps = 1 + t.below(cfg.expr_steps);
                 g.of_type(&mut ctx, t, Type::BV(1), steps)
